@@ -1,4 +1,5 @@
 import Spok.App
+import Spok.Lemmas.App
 import Spok.Judge.Cli
 /-! # C19 — spok writes only where the chosen action says it may
 
@@ -22,27 +23,54 @@ open Spok.App
 theorem C19_frame (o : Options) (args : List String) (w : World) :
     ∀ d ∈ writes (action o args w), d ∈ allowedWrites (action o args w) w := by
   intro d hd
-  unfold action at hd ⊢
-  repeat' split at hd
-  all_goals simp_all [writes, allowedWrites]
+  rcases action_cases o args w with ⟨_, _, h⟩ | ⟨_, hc, h⟩ | ⟨_, e, h⟩ | ⟨_, _, hp, h⟩
+  · rw [h] at hd; simp [writes] at hd
+  · rw [h] at hd ⊢; simpa [writes, allowedWrites, hc] using hd
+  · rw [h] at hd; simp [writes] at hd
+  · have hw := prepare_none o w hp
+    rw [h] at hd ⊢
+    rcases dispatch_cases o args w with ⟨_, h⟩ | ⟨_, _, h⟩ | ⟨_, _, _, h | h⟩ | ⟨_, _, _, _, h⟩ | ⟨_, _, _, _, _, h⟩ | ⟨_, _, _, _, _, h⟩
+    all_goals rw [h] at hd ⊢
+    all_goals (try (unfold defaultDispatch at hd ⊢; split at hd))
+    all_goals simp_all [writes, allowedWrites]
+    all_goals (try (rcases hd with rfl | rfl <;> simp))
 
 /-- the same at the level of the flags (what the judge applies to the real binary): no dispatch order involved
     in `permitted`, so a reordering of `App.Run` that writes earlier would break this theorem -/
 theorem C19_frame_flags (o : Options) (args : List String) (w : World) :
     ∀ d ∈ writes (action o args w), permitted o w d = true := by
   intro d hd
-  unfold action at hd
-  repeat' split at hd
-  all_goals simp_all [writes, permitted]
+  rcases action_cases o args w with ⟨_, _, h⟩ | ⟨hi, hc, h⟩ | ⟨_, e, h⟩ | ⟨hi, _, hp, h⟩
+  · rw [h] at hd; simp [writes] at hd
+  · rw [h] at hd
+    simp only [writes, List.mem_cons, List.not_mem_nil, or_false] at hd
+    rcases hd with rfl | rfl <;> simp [permitted, hi, hc]
+  · rw [h] at hd; simp [writes] at hd
+  · have hw := prepare_none o w hp
+    rw [h] at hd
+    rcases dispatch_writes o args w d hd with ⟨rfl, hf, _⟩ | ht | ⟨rfl, hcl, _⟩
+    · simp [permitted, hf, hi, hw]
+    · obtain ⟨t, k⟩ := d
+      simp only at ht
+      subst ht
+      simp [permitted]
+    · simp [permitted, hcl, hi]
 
 /-- `--fmt` writes nothing unless the spokfile parses AND loads (and then only the spokfile itself) -/
 theorem C19_fmt_needs_parse_and_load (o : Options) (args : List String) (w : World)
     (h : (⟨.spokfile, .modify⟩ : Write) ∈ writes (action o args w)) :
     o.fmt = true ∧ o.init = false ∧ w.parses = true ∧ w.loads = true ∧ w.readable = true ∧
     action o args w = .fmt := by
-  unfold action at h ⊢
-  repeat' split at h
-  all_goals simp_all [writes]
+  rcases action_cases o args w with ⟨_, _, ha⟩ | ⟨_, _, ha⟩ | ⟨_, e, ha⟩ | ⟨hi, _, hp, ha⟩
+  · rw [ha] at h; simp [writes] at h
+  · rw [ha] at h; simp [writes] at h
+  · rw [ha] at h; simp [writes] at h
+  · have hw := prepare_none o w hp
+    rw [ha] at h ⊢
+    rcases dispatch_writes o args w _ h with ⟨_, hf, hd⟩ | ht | ⟨he, _⟩
+    · exact ⟨hf, hi, hw.2.2.2.2.1, hw.2.2.2.2.2, hw.2.2.2.1, hd⟩
+    · simp at ht
+    · simp at he
 
 theorem C19_fmt_only_spokfile (o : Options) (args : List String) (w : World) (h : action o args w = .fmt) :
     writes (action o args w) = [⟨.spokfile, .modify⟩] := by
@@ -94,11 +122,12 @@ theorem C19_runs_only_cache (a : Action) (h : a.isRun = true) : ∀ d ∈ writes
 /-- for every action except `--clean` (C12) the only non-cache targets are the three named by the property -/
 theorem C19_no_other_target (o : Options) (args : List String) (w : World) (hc : o.clean = false) :
     ∀ d ∈ writes (action o args w), d.target ≠ .outputs := by
-  intro d hd
-  unfold action at hd
-  repeat' split at hd
-  all_goals simp_all [writes]
-  all_goals (try (rcases hd with rfl | rfl <;> simp))
+  intro d hd ht
+  have hp := C19_frame_flags o args w d hd
+  obtain ⟨t, k⟩ := d
+  simp only at ht
+  subst ht
+  cases k <;> simp_all [permitted]
 
 /-! ## non-vacuity: each action is reachable, and writing actions do write -/
 
